@@ -17,6 +17,45 @@ def last_mem_byte(F, value):
     return bs[F.ptr_bytes - 1]
 
 
+def _indexed_stores(b):
+    """stores into one element of an array / slice: `a[i] = v`, or `*p = v` with `p = &mut a[i]` (what a
+    slice pattern `let [.., last] = &mut a` binds).  -> (block, index, value, statement, base local of a)"""
+    out = []
+    def root(pl):
+        # `(*r)[i]` with `r = &mut a`: the array is a
+        l, pr = pl["l"], pl["p"]
+        for _ in range(3):
+            if pr and pr[0] == "deref":
+                ds = b.defs.get(l, [])
+                if len(ds) == 1 and ds[0][1] != "term" and ds[0][2]["k"] in ("ref", "rawptr") and not ds[0][2]["pl"]["p"]:
+                    l, pr = ds[0][2]["pl"]["l"], pr[1:]
+                    continue
+            break
+        return l
+    def elem(pl):
+        if pl["p"] and isinstance(pl["p"][-1], dict) and ("idx" in pl["p"][-1] or "cidx" in pl["p"][-1]):
+            pe = pl["p"][-1]
+            if "idx" in pe:
+                return eval_int(strip_refs(b.origin_local(pe["idx"])))
+            return (pe.get("min_length", 0) - pe["cidx"]) if pe.get("from_end") else pe["cidx"]
+        return "no"
+    for bb, blk in enumerate(b.blocks):
+        for s in blk["stmts"]:
+            if s["k"] != "assign":
+                continue
+            lhs = s["lhs"]
+            i = elem(lhs)
+            if i != "no":
+                out.append((bb, i, b.origin_rvalue(s["rv"]), s, root(lhs)))
+            elif lhs["p"] == ["deref"]:
+                ds = b.defs.get(lhs["l"], [])
+                if len(ds) == 1 and ds[0][1] != "term" and ds[0][2]["k"] in ("ref", "rawptr") and ds[0][2].get("mut"):
+                    i = elem(ds[0][2]["pl"])
+                    if i != "no":
+                        out.append((bb, i, b.origin_rvalue(s["rv"]), s, root(ds[0][2]["pl"])))
+    return out
+
+
 def _follow_forward(F, b, depth=3):
     """`fn len(&self) -> usize { imp::len(self) }`: the private helper the whole body forwards to"""
     while b is not None and depth > 0:
@@ -76,14 +115,7 @@ def rule_T1(ctx, rule="T1-tags"):
         ctx.need(rule, fn, "anchor", b is not None, "%s not found" % fn)
         if not b:
             continue
-        stores = []
-        for bb, blk in enumerate(b.blocks):
-            for s in blk["stmts"]:
-                if s["k"] == "assign" and s["lhs"]["p"] and isinstance(s["lhs"]["p"][-1], dict) and ("idx" in s["lhs"]["p"][-1] or "cidx" in s["lhs"]["p"][-1]):
-                    pe = s["lhs"]["p"][-1]
-                    idx = eval_int(strip_refs(b.origin_local(pe["idx"]))) if "idx" in pe else pe["cidx"]
-                    val = b.origin_rvalue(s["rv"])
-                    stores.append((bb, idx, val, s))
+        stores = [(bb, idx, val, s) for (bb, idx, val, s, base) in _indexed_stores(b)]
         if fn.endswith("::empty") and not stores:
             # `empty()` written as `Self::new("")`
             ds = [describe(b, ("call", bb) if si == "term" else b.origin_rvalue(x)) for (bb, si, x) in b.defs.get(0, [])]
@@ -114,9 +146,8 @@ def rule_T1(ctx, rule="T1-tags"):
     for path, b in F.bodies.items():
         if path in audited:
             continue
-        for bb, blk in enumerate(b.blocks):
-            for s in blk["stmts"]:
-                if s["k"] == "assign" and s["lhs"]["p"] and isinstance(s["lhs"]["p"][-1], dict) and ("idx" in s["lhs"]["p"][-1] or "cidx" in s["lhs"]["p"][-1]) and "InlineBuffer" in (b.local_ty(s["lhs"]["l"]) or ""):
+        for (bb, _i, _v, s, base) in _indexed_stores(b):
+                if "InlineBuffer" in (b.local_ty(base) or ""):
                     ok = path not in anchors(F) and anchor_callers(F, path) and anchor_callers(F, path) <= set(audited)
                     ctx.ob(rule, path, "inline-bytes-writer", bool(ok), line=s.get("line"), how="helper of an audited tag writer",
                            detail="%s stores into the inline buffer's bytes by index: the tag byte has three audited writers (InlineBuffer::new / empty / set_len, each evaluated for every length); a store made anywhere else is not known to leave a valid tag or text byte" % path)
@@ -177,6 +208,29 @@ def rule_T1(ctx, rule="T1-tags"):
             if isinstance(vh, _U) and isinstance(vs_, _U) and vh == vs_ and "last_byte" not in vh:
                 branchless = True
                 ctx.ob(rule, ln.path, "inline-vs-heap-test", True, how="branchless select: the markers %#x / %#x yield the stored length word %s" % (hm, sm, vh[:60]))
+    if ln and F.ptr_bits == 64:
+        # the heap / static arm of the 64-bit len(): the second word with its last memory byte (the
+        # marker) cleared, read as little-endian - evaluated on a word whose seven length bytes differ
+        tail = [0x11, 0x22, 0x33, 0x44, 0x55, 0x66, 0x77]
+        want = int.from_bytes(bytes(tail), "little")
+        leaves = _value_leaves(ln, ln.origin_local(0))
+        for marker, nm in ((hm, "heap"), (sm, "static")):
+            vals = []
+            for leaf in leaves:
+                d = describe(ln, leaf)
+                if "last_byte" in d and len(leaves) > 1 and "::add(" not in d:
+                    continue      # the inline arm
+                try:
+                    v = _ceval(ln, leaf, marker, F, 0, None, {"@tail": tail + [marker]})
+                except Exception:
+                    v = None
+                vals.append(v)
+            ints = [v for v in vals if isinstance(v, int) and not isinstance(v, _U) and not isinstance(v, bool)]
+            if not ints:
+                ctx.ob(rule, ln.path, "word-decoding[%s]" % nm, True, how="length-word expression not evaluated (%s): clause not decided here; HeapBuffer::len / StaticBuffer::len are (length words)" % [str(v)[:40] for v in vals])
+            else:
+                ctx.ob(rule, ln.path, "word-decoding[%s]" % nm, all(v == want for v in ints), how="tail word 11 22 33 44 55 66 77 %02x reads as %#x" % (marker, want),
+                       detail="Repr::len reads the %s length word 11 22 33 44 55 66 77 %02x as %s, expected %#x (the seven bytes before the marker, little-endian)" % (nm, marker, [hex(v) for v in ints], want))
     if ln and F.ptr_bits == 32:
         # three bytes of length word: longer heap texts keep their length in the header, behind a
         # sentinel only HeapBuffer::len knows. The heap arm of Repr::len has to go through it.
@@ -220,6 +274,13 @@ def _value_leaves(body, e, depth=0, seen=None):
     return [e]
 
 
+def _word_or_bytes(v, ty, F):
+    """memory bytes read as a usize are that word in the target's byte order"""
+    if isinstance(v, tuple) and (ty or "").strip() in ("usize", "u64", "u32"):
+        return int.from_bytes(bytes(v), "big" if F.endian == "big" else "little")
+    return v
+
+
 class _U(str):
     """an unknown machine word (named by the expression that produces it)"""
 
@@ -249,10 +310,32 @@ def _ceval(body, e, byte, F, depth=0, env=None, binds=None):
             return v
         bits = {"u8": 8, "u16": 16, "u32": 32, "u64": 64, "usize": F.ptr_bits}.get(e[3])
         return v & ((1 << bits) - 1) if bits else None
+    if k == "deref" and binds and "@tail" in binds:
+        # the second word of the handle read through a raw pointer: `*(self as *const usize).add(1)`,
+        # as a word or as its bytes - bound to the test word's memory bytes
+        d = describe(body, e[1])
+        if "::add(" in d and "p1" in d and "const:1" in d:
+            return tuple(binds["@tail"])
     if k in ("mem", "local"):
         ds = body.defs.get(e[1], [])
-        if len(ds) == 1 and e[1] not in body.partial:
-            return E(("call", ds[0][0]) if ds[0][1] == "term" else body.origin_rvalue(ds[0][2]))
+        arr_tail = bool(binds) and "@tail" in binds and (body.local_ty(e[1]) or "").startswith("[u8;")
+        if len(ds) == 1 and e[1] not in body.partial and not arr_tail:
+            v0 = E(("call", ds[0][0]) if ds[0][1] == "term" else body.origin_rvalue(ds[0][2]))
+            return _word_or_bytes(v0, body.local_ty(e[1]), F)
+        if len(ds) == 1 and binds and "@tail" in binds and (body.local_ty(e[1]) or "").startswith("[u8;"):
+            # `tail_bytes[7] = 0` (or `let [.., tag] = &mut tail_bytes; *tag = 0`): an array read from
+            # memory and patched at constant indices
+            v0 = E(("call", ds[0][0]) if ds[0][1] == "term" else body.origin_rvalue(ds[0][2]))
+            if isinstance(v0, tuple):
+                arr = list(v0)
+                for (pb, ix, val_e, st_, base) in _indexed_stores(body):
+                    if base != e[1]:
+                        continue
+                    val = E(val_e)
+                    if not isinstance(ix, int) or not isinstance(val, int) or isinstance(val, _U) or not (0 <= ix < len(arr)):
+                        return _U(describe(body, e))
+                    arr[ix] = val & 0xFF
+                return tuple(arr)
         return _U(describe(body, e))
     if k == "field" and e[1][0] == "bin" and e[1][1].endswith("WithOverflow") and e[2] == 0:
         return E(("bin", e[1][1].replace("WithOverflow", ""), e[1][2], e[1][3]))
@@ -277,6 +360,10 @@ def _ceval(body, e, byte, F, depth=0, env=None, binds=None):
     if k == "bin":
         a, b = E(e[2]), E(e[3])
         if a is None or b is None:
+            return None
+        a = _word_or_bytes(a, "usize", F) if isinstance(a, tuple) and len(a) == F.ptr_bytes else a
+        b = _word_or_bytes(b, "usize", F) if isinstance(b, tuple) and len(b) == F.ptr_bytes else b
+        if isinstance(a, tuple) or isinstance(b, tuple):
             return None
         op = e[1]
         ua, ub = isinstance(a, _U), isinstance(b, _U)
@@ -337,8 +424,17 @@ def _ceval(body, e, byte, F, depth=0, env=None, binds=None):
                 return _ceval(hb, r, byte, F, depth + 1, {i + 1: v for i, v in enumerate(vs)})
         if any(v is None for v in vs):
             return None
+        if len(vs) == 1 and isinstance(vs[0], int) and not isinstance(vs[0], bool):
+            mm = __import__("re").match(r"^core::convert::num::.*<impl core::convert::TryFrom<\w+> for (\w+)>::try_from$", n)
+            if mm:
+                bits_ = {"u8": 8, "u16": 16, "u32": 32, "u64": 64, "usize": F.ptr_bits}.get(mm.group(1))
+                return vs[0] if bits_ and vs[0] < (1 << bits_) else None      # Ok(v): the payload is v (None: would be Err)
+            if n in ("core::result::Result::<T, E>::unwrap_unchecked", "core::result::Result::<T, E>::unwrap", "core::result::Result::<T, E>::expect", "core::option::Option::<T>::unwrap_unchecked"):
+                return vs[0]
         if any(isinstance(v, _U) for v in vs) or not vs:
             return _U(describe(body, e))
+        if n.startswith("core::num::<impl u") and leaf not in ("from_ne_bytes", "from_le_bytes", "from_be_bytes"):
+            vs = [_word_or_bytes(v, "usize", F) if isinstance(v, tuple) and len(v) == F.ptr_bytes else v for v in vs]      # a word read from memory
         if n.startswith("core::num::<impl u"):
             bits = {"u8": 8, "usize": F.ptr_bits, "u32": 32, "u64": 64}.get(n[len("core::num::<impl "):].split(">")[0])
             if not bits:
@@ -621,9 +717,8 @@ def rule_T5(ctx, rule="T5-full-inline"):
     if not b:
         ctx.need(rule, "repr::inline_buffer::InlineBuffer::set_len", "anchor", False, "InlineBuffer::set_len not found")
         return
-    for bb, blk in enumerate(b.blocks):
-        for s in blk["stmts"]:
-            if s["k"] == "assign" and s["lhs"]["p"] and isinstance(s["lhs"]["p"][-1], dict) and ("idx" in s["lhs"]["p"][-1] or "cidx" in s["lhs"]["p"][-1]):
+    for (bb, _i, _v, s, _base) in _indexed_stores(b):
+            if True:
                 gs = guards_at(b, bb)
                 ok = any(g[0] == "cmp" and g[3] == M - 1 and g[2] is None and strip_refs(g[1]) == ("param", 2) for g in gs)
                 ctx.ob(rule, b.path, "tag-store-guard", ok, how="tag byte written only when len < %d" % M, line=s.get("line", 0),
